@@ -1156,7 +1156,28 @@ func c03R9(c *core.Ctx, rule string) {
 	}
 	idFetch := M + "provider/contract.HTTPContractProvider.fetchContract"
 	checked := 0
-	for _, g := range eng.WithAnon(f) {
+	// refresh itself, its closures, and whatever function value it hands to cache.Range
+	cands := eng.WithAnon(f)
+	eng.Instrs(f, func(in ssa.Instruction) {
+		ci, ok := in.(ssa.CallInstruction)
+		if !ok {
+			return
+		}
+		for _, a := range eng.CallArgs(ci.Common()) {
+			if fv, _ := eng.FuncValue(a); fv != nil && fv.Blocks != nil {
+				dup := false
+				for _, x := range cands {
+					if x == fv {
+						dup = true
+					}
+				}
+				if !dup {
+					cands = append(cands, fv)
+				}
+			}
+		}
+	})
+	for _, g := range cands {
 		for _, fc := range eng.Calls(g, false, idFetch) {
 			checked++
 			fetchOK := eng.ValuePred("fetchContract ok", extractOf(fc.Value(), 1), true)
